@@ -744,6 +744,38 @@ func checkLoadHashMap(c *Ctx) {
 			c.Bad(rule, key, c.Pos(f.Pos()), "check not found: "+what)
 			return
 		}
+		// a check that sits in a phase helper the reference tree does not have (header decoding split off):
+		// the helper reports by error — inside it no possibly-successful return is reachable unless the check
+		// passed, and loadHashMap succeeds only behind the nil-error edge of the helper's call
+		var own []boolTest
+		for _, t := range tests {
+			h := t.If.Parent()
+			if h == f || lexicalOutermost(h) == lexicalOutermost(f) {
+				own = append(own, t)
+				continue
+			}
+			var same []boolTest
+			for _, t2 := range tests {
+				if t2.If.Parent() == h {
+					same = append(same, t2)
+				}
+			}
+			rh := reach(h, nil, boolEdgeCut(same, true), nil)
+			escapes := false
+			for _, ret := range returnsOf(h) {
+				if rh(ret) && (isNilErrorReturn(ret) || len(errResultsOfFn(h)) == 0) {
+					escapes = true
+				}
+			}
+			site, _ := siteIn(f, t.If).(*ssa.Call)
+			if escapes || site == nil || succReturns(errorEdgeCut(f, site, false)) {
+				c.Bad(rule, key, c.Pos(t.If.Cond.Pos()), "loadHashMap can succeed without passing: "+what+" (the check sits in "+FuncName(h)+", whose verdict does not gate the success)")
+			} else {
+				c.OK(rule, key, c.Pos(t.If.Cond.Pos()), "success unreachable unless "+what+" (checked in "+FuncName(h)+", which reports by error)")
+			}
+			return
+		}
+		tests = own
 		if succReturns(boolEdgeCut(tests, true)) {
 			c.Bad(rule, key, c.Pos(f.Pos()), "loadHashMap can succeed without passing: "+what)
 		} else {
@@ -751,7 +783,8 @@ func checkLoadHashMap(c *Ctx) {
 		}
 	}
 	var codeT, verT, hashT []boolTest
-	allInstrs(f, func(in ssa.Instruction) {
+	allInstrsNew(f, func(in ssa.Instruction) {
+		f := in.Parent()
 		switch x := in.(type) {
 		case *ssa.Call:
 			if calleeID(x) == "bytes.Equal" {
@@ -1013,4 +1046,16 @@ func checkCheckpointCodec(c *Ctx, rule string) {
 	default:
 		c.OK(rule, key, c.Pos(wr.Pos()), fmt.Sprintf("%d decode(s) of the checkpoint, all %s like the writer", n, strings.Replace(wWidth, "@", " of ", 1)))
 	}
+}
+
+// errResultsOfFn: the error-typed results of a function's signature (indices).
+func errResultsOfFn(h *ssa.Function) []int {
+	var out []int
+	res := h.Signature.Results()
+	for i := 0; i < res.Len(); i++ {
+		if isErrorType(res.At(i).Type()) {
+			out = append(out, i)
+		}
+	}
+	return out
 }
